@@ -1,0 +1,10 @@
+//go:build verif
+
+package xpath
+
+// Contracts for the govc verifier (/verif). Comments only: this file adds no declarations.
+
+// the generated (goyacc) parser is abstracted: it builds a fresh expression tree and touches nothing else
+//@ func Parse(s string) (*Path, error)
+//@   trusted
+//@   assigns nothing
